@@ -12,7 +12,12 @@ Inductive obs :=
 | ORq (host : str) (port : N) (path : str) (fmatch : bool) (orig : option str)
       (result : option (option str)).
 
-Inductive case := Case (v : variant) (flt_on : bool) (evs : list obs).
+(* DM / PM: the two predicates called directly (stickycookie.domain_match(a, b); the request path test on
+   (request target, cookie path)) with the boolean the implementation returned *)
+Inductive case :=
+| Case (v : variant) (flt_on : bool) (evs : list obs)
+| DM (v : variant) (a b : str) (impl : bool)
+| PM (v : variant) (target cpath : str) (impl : bool).
 
 Definition dict_eqb : list (str * option str) -> list (str * option str) -> bool :=
   list_eqb (pair_eqb bytes_eqb ostr_eqb).
@@ -30,4 +35,8 @@ Fixpoint replay (v : variant) (flt_on : bool) (j : jar) (evs : list obs) : bool 
   end.
 
 Definition check_case (c : case) : bool :=
-  match c with Case v flt_on evs => replay v flt_on [] evs end.
+  match c with
+  | Case v flt_on evs => replay v flt_on [] evs
+  | DM v a b impl => Bool.eqb (domain_match v a b) impl
+  | PM v t cp impl => Bool.eqb (path_match v t cp) impl
+  end.
